@@ -15,11 +15,11 @@ Open Scope Z_scope.
 
 (* ---- C17_heals: the watcher of pool id is waiting on the session of the pool object that is
    sm.pools[id]; that session is lost; no hot restart is in progress; the manager is not closed.  Then
-   the watcher's own steps — wake, [timer, failed dial]^k for ANY k, timer, successful dial, store — end with
+   the watcher's own steps — wake, [timer, failed dial]^k for ANY k, timer, successful dial (with its store) — end with
    GetStream on that pool succeeding, exactly one session created, none into a stale object. *)
 Theorem C17_heals : forall k s id,
   Lost s id WSelect -> r_state s <> st_hr -> obj_alive s (pool_of s id) = false ->
-  let s' := r_run ([WakeClose id; TimerFires id] ++ retries id k ++ [Compare id true; Store id]) s in
+  let s' := r_run ([WakeClose id; TimerFires id] ++ retries id k ++ [Compare id true]) s in
   get_stream_r s' id = GsOk /\ w_pc (watcher_of s' id) = WTop /\ created s' = S (created s) /\ bad s' = bad s.
 Proof. exact heals. Qed.
 Print Assumptions C17_heals.
@@ -32,8 +32,8 @@ Proof. exact paused_by_hot_restart. Qed.
 Print Assumptions C17_paused_by_hot_restart.
 
 (* ---- C17_not_twice.  The watcher is modelled by its real steps: detect the loss / close the pool; wait
-   for the rebuild timer; then ONE critical section of sm's lock: `sm.pools[id] != pool` ? give up : dial;
-   then, the lock released, `pool.session.Store(session)`.  The guard: a watcher whose pool object was
+   for the rebuild timer; then ONE critical section of sm's lock: `sm.pools[id] != pool` ? give up : dial,
+   `session.manager = sm`, `pool.session.Store(session)`.  The guard: a watcher whose pool object was
    swapped out does not dial, whatever the epochs are. *)
 Theorem C17_not_twice_guard : forall s id ok, check_early s = false ->
   in_range s id = true -> w_pc (watcher_of s id) = WCompare ->
@@ -43,26 +43,18 @@ Theorem C17_not_twice_guard : forall s id ok, check_early s = false ->
 Proof. exact guard_swapped. Qed.
 Print Assumptions C17_not_twice_guard.
 
-(* full statement: no watcher ever stores a rebuilt session into a pool object that is no longer
-   sm.pools[id].  False of the code as it is: Store comes after sm.Unlock(), a hot-restart handler that
-   gets the lock between the two swaps the pool and the replacement lands in the pool just parked. *)
+(* for ALL histories: no watcher ever stores a rebuilt session into a pool object that is no longer
+   sm.pools[id].  The proof depends on the identity check being made AFTER the wait and on check, dial and
+   Store being one critical section of the lock the hot-restart handler takes (C17_example_check_after_wait,
+   C17_example_store_race show the two other orders violating it; the second is the order the code had
+   before its repair, regression scenario "storerace" of the harness). *)
 Definition C17_not_twice_full : Prop := forall n evs, bad (r_run evs (r_init n)) = 0%nat.
-Theorem C17_not_twice_refuted : ~ C17_not_twice_full.
-Proof. exact not_twice_refuted. Qed.
-Print Assumptions C17_not_twice_refuted.
+Theorem C17_not_twice : C17_not_twice_full.
+Proof. exact not_twice_full. Qed.
+Print Assumptions C17_not_twice.
 
-(* holds for every history in which no hot-restart event for a pool is handled between the end of its
-   watcher's dial section and that watcher's Store (two adjacent statements).  The proof depends on the
-   identity check being made AFTER the wait and in the critical section of the dial: a hot-restart event
-   handled during the rebuild wait — however long — is seen by the check. *)
-Theorem C17_not_twice_partial_store_not_interleaved : forall n evs, run_store_atomic evs (r_init n) ->
-  bad (r_run evs (r_init n)) = 0%nat.
-Proof. exact not_twice_partial. Qed.
-Print Assumptions C17_not_twice_partial_store_not_interleaved.
-
-Theorem C17_rebuild_into_current : forall s id,
-  bad (r_step s (Store id)) = bad s -> r_enabled s (Store id) = true ->
-  (w_pool (watcher_of s id) < length (objs s))%nat -> w_pool (watcher_of s id) = pool_of s id.
+Theorem C17_rebuild_into_current : forall s id ok, check_early s = false ->
+  created (r_step s (Compare id ok)) = S (created s) -> w_pool (watcher_of s id) = pool_of s id.
 Proof. exact rebuild_into_current. Qed.
 Print Assumptions C17_rebuild_into_current.
 
@@ -131,7 +123,7 @@ Print Assumptions C17_close_waits_for_hot_restart.
 (* ---- non-vacuity *)
 (* two pools; pool 1 loses its session, two dials fail (server down), the third succeeds *)
 Example C17_example_heal :
-  let s := r_run ([WLoad 0; WLoad 1; SessionLost 1; GetStreamR 1; WakeClose 1; TimerFires 1] ++ retries 1 2 ++ [Compare 1 true; Store 1; WLoad 1]) (r_init 2) in
+  let s := r_run ([WLoad 0; WLoad 1; SessionLost 1; GetStreamR 1; WakeClose 1; TimerFires 1] ++ retries 1 2 ++ [Compare 1 true; WLoad 1]) (r_init 2) in
   get_stream_r s 1 = GsOk /\ created s = 1%nat /\ bad s = 0%nat /\
   get_stream_r (r_run [WLoad 0; WLoad 1; SessionLost 1] (r_init 2)) 1 = GsErr /\
   map w_pc (watchers s) = [WSelect; WSelect].
@@ -140,7 +132,7 @@ Proof. vm_compute. repeat split. Qed.
 (* hot restart with a fresh epoch: the parked pool dies later, the watcher does not rebuild it;
    the same with epoch 0 (equal epochs): neither *)
 Example C17_example_not_twice :
-  let h e := [WLoad 0; HREvent 0 e true; HRTick; SessionLost 0; WakeClose 0; TimerFires 0; Compare 0 true; Store 0; WLoad 0] in
+  let h e := [WLoad 0; HREvent 0 e true; HRTick; SessionLost 0; WakeClose 0; TimerFires 0; Compare 0 true; WLoad 0] in
   created (r_run (h 7) (r_init 1)) = 0%nat /\ get_stream_r (r_run (h 7) (r_init 1)) 0 = GsOk /\
   created (r_run (h 0) (r_init 1)) = 0%nat /\ get_stream_r (r_run (h 0) (r_init 1)) 0 = GsOk.
 Proof. vm_compute. repeat split. Qed.
@@ -172,20 +164,23 @@ Example C17_example_close_race :
 Proof. vm_compute. repeat split. Qed.
 
 (* a session lost in defaultState, then the hot-restart event for that pool handled DURING the rebuild
-   wait.  The code (check after the wait, in the dial's critical section): the watcher does not dial.
-   A variant that checks BEFORE the wait and dials unconditionally afterwards: it dials and stores a second
-   live session into the parked pool — in a history that satisfies the hypothesis of the partial theorem,
-   so that theorem really depends on where the check is made. *)
+   wait.  The code (check after the wait, in the critical section of dial and store): the watcher does not
+   dial.  A variant that checks BEFORE the wait and dials unconditionally afterwards: it dials and stores a
+   second live session into the parked pool. *)
 Example C17_example_check_after_wait :
   let code := r_run swap_during_wait_history (r_init 1) in
-  let early := r_run swap_during_wait_history (r_init_gen close_prog true 1) in
+  let early := r_run swap_during_wait_history (r_init_gen close_prog true false 1) in
   created code = 0%nat /\ bad code = 0%nat /\ get_stream_r code 0 = GsOk /\ length (objs code) = 2%nat /\
-  created early = 1%nat /\ bad early = 1%nat /\ obj_alive early 0 = true /\ get_stream_r early 0 = GsOk /\
-  run_store_atomic swap_during_wait_history (r_init_gen close_prog true 1).
+  created early = 1%nat /\ bad early = 1%nat /\ obj_alive early 0 = true /\ get_stream_r early 0 = GsOk.
 Proof. vm_compute. repeat split. Qed.
 
-(* the residual interleaving of the code as it is: the handler runs between sm.Unlock() and Store *)
+(* the order the code had before its repair: Store AFTER sm.Unlock().  The handler gets the lock between the
+   two, swaps the pool, and the replacement lands in the pool just parked.  In the code's order the same
+   events leave the replacement in the pool object that the handler then parks as a whole — stored before the
+   swap, into what was sm.pools[id] — and nothing is counted *)
 Example C17_example_store_race :
-  let s := r_run store_race_history (r_init 1) in
-  created s = 1%nat /\ bad s = 1%nat /\ obj_alive s 0 = true /\ pool_of s 0 = 1%nat.
+  let late := r_run store_race_history (r_init_gen close_prog false true 1) in
+  let code := r_run store_race_history (r_init 1) in
+  created late = 1%nat /\ bad late = 1%nat /\ obj_alive late 0 = true /\ pool_of late 0 = 1%nat /\
+  created code = 1%nat /\ bad code = 0%nat /\ pool_of code 0 = 1%nat.
 Proof. vm_compute. repeat split. Qed.
